@@ -93,6 +93,8 @@ def _validate(c, ev, what):
         e = ev[int(t[0]) - 1]
         badsegs.add(e["seg"])
         sig = _signature(e)
+        if e["ev"] == "PrefixQuery":
+            sig["allowed"] = "+".join(k for k in ("passed", "refused", "answer") if '"%s"' % k in " ".join(t[1:]))
         key = json.dumps(sig, sort_keys=True)
         seen[key] = seen.get(key, 0) + 1
         if seen[key] > 3:
@@ -131,25 +133,28 @@ def _signature(e):
 
 
 def _describe(e, prefix):
+    """Concrete failing input first (the verdict line is cut at 600 characters)."""
     lists = {}
     for x in prefix:
         if x["ev"] == "Reset":
-            lists[x["id"]] = (sorted(".".join(n["n"]) for n in x["names"]), x["text"])
+            d = lists.setdefault(x["id"], {"names": [], "text": {}})
+            d["names"] = sorted(".".join(n["n"]) for n in x["names"])
+            d["text"][x["via"]] = x["text"]
+    d = lists.get(e["id"], {"names": [], "text": {}})
+    via = {"filter-file": "file", "filter-file-cached": "file", "filter-http": "http"}.get(e["via"], "raw")
+    text = d["text"].get(via, d["text"].get("unobserved", ""))
     if e["ev"] == "Lookup":
-        names, text = lists.get(e["id"], ([], ""))
-        return "list %s = %s (text %r), %s %s via %s -> matched=%s rule=%s" % (
-            e["id"], names, text, e["hoststr"], e["qt"], e["via"], e["matched"], ".".join(e["rule"]))
+        return "%s %s on list %s via %s -> matched=%s rule=%s; list = %s (text %r)" % (
+            e["hoststr"], e["qt"], e["id"], e["via"], e["matched"], ".".join(e["rule"]), d["names"], text)
     if e["ev"] == "PrefixQuery":
-        names, text = lists.get(e["id"], ([], ""))
-        return "list %s = %s, TXT %s via %s -> %s %s next=%s" % (
-            e["id"], names, e["qname"], e["via"], e["resp"], e["hashes"][:4], e["next"])
+        return "TXT %s via %s -> %s %s next=%s; list %s = %s" % (
+            e["qname"], e["via"], e["resp"], e["hashes"][:4], e["next"], e["id"], d["names"])
     if e["ev"] == "Reset":
         return "Reset %s via %s with text %r -> storage holds %d hashes %s" % (
             e["id"], e["via"], e["text"], len(e["obs"]), e["obs"][:3])
     if e["ev"] == "Member":
-        names, text = lists.get(e["id"], ([], ""))
-        return "list %s = %s (text %r): Storage.Matches true for %s" % (
-            e["id"], names, text, [".".join(h) for h in e["hits"]])
+        return "Storage.Matches true for %s; list %s = %s (text %r)" % (
+            [".".join(h) for h in e["hits"]], e["id"], d["names"], text)
     return json.dumps(e)[:300]
 
 
